@@ -190,8 +190,12 @@ Ltac pay_norm :=
   | H : ?x = ?y |- _ => is_var x; subst x
   end; cbn [fst snd] in *.
 
-Ltac pay_post := cbv beta; cbn [fst snd]; repeat split; eauto with pay.
-Ltac pay_payload := cbn [payload_ok]; repeat split; eauto with pay.
+Ltac pay_split := repeat match goal with |- _ /\ _ => split end.
+Ltac pay_post := cbv beta; cbn [fst snd]; pay_split; eauto 8 with pay.
+Ltac pay_payload :=
+  cbn [payload_ok]; pay_split;
+  try match goal with E : _ = ?x |- from_source _ ?x => rewrite <- E end;
+  eauto with pay.
 
 Ltac pay_head t := lazymatch t with ?f _ => pay_head f | _ => t end.
 
@@ -597,3 +601,281 @@ Lemma parse_document_rinv : forall dtd c, IC c -> rinv text IC (parse_document t
 Proof. intros dtd c Hc. unfold parse_document. pay_tac. Qed.
 
 End Tok.
+
+(* ------------------------------------------------------------------ *)
+(** * The tree builder: the invariant of the context *)
+
+Definition elem_local (k : node_kind) : option slice :=
+  match k with KElement _ l _ _ => Some l | _ => None end.
+
+(* the open elements, innermost first, with the prefixes stored for them: prefix and local
+   name of each were written together as one qualified name *)
+Fixpoint chain (text : bytes) (nodes : list node_data) (id : N) (stack : list slice) : Prop :=
+  match stack with
+  | [] => True
+  | top :: rest =>
+    exists nd, nth_N nodes id = Some nd /\
+      (forall l, elem_local (nd_kind nd) = Some l -> qn_ok text top l) /\
+      match nd_parent nd with Some pid => chain text nodes pid rest | None => True end
+  end.
+
+Definition ctx_inv (text : bytes) (c : context) : Prop :=
+  qn_ok text (tn_prefix (c_tag_name c)) (tn_name (c_tag_name c)) /\
+  chain text (d_nodes (c_doc c)) (c_parent_id c) (rev (c_parent_prefixes c)).
+
+(* nodes are only added, and parent and element name of a node never change *)
+Definition nodes_ext (n n' : list node_data) : Prop :=
+  forall i nd, nth_N n i = Some nd ->
+    exists nd', nth_N n' i = Some nd' /\ nd_parent nd' = nd_parent nd /\
+      (forall l, elem_local (nd_kind nd') = Some l -> elem_local (nd_kind nd) = Some l).
+
+Lemma nodes_ext_refl : forall n, nodes_ext n n.
+Proof. intros n i nd H. exists nd. auto. Qed.
+Lemma nodes_ext_trans : forall a b c, nodes_ext a b -> nodes_ext b c -> nodes_ext a c.
+Proof.
+  intros a b c Hab Hbc i nd H. destruct (Hab i nd H) as (nd1 & H1 & Hp1 & Hl1).
+  destruct (Hbc i nd1 H1) as (nd2 & H2 & Hp2 & Hl2). exists nd2. repeat split; auto; congruence.
+Qed.
+
+Lemma chain_ext : forall text n n', nodes_ext n n' -> forall st id, chain text n id st -> chain text n' id st.
+Proof.
+  intros text n n' Hext st. induction st as [|top rest IH]; intros id H; cbn [chain] in *; [exact I|].
+  destruct H as (nd & Hn & Hq & Hp). destruct (Hext id nd Hn) as (nd' & Hn' & Hp' & Hl').
+  exists nd'. repeat split; auto. rewrite Hp'. destruct (nd_parent nd); auto.
+Qed.
+
+Lemma nth_N_nth_error : forall (A : Type) (l : list A) i x, nth_N l i = Some x -> nth_error l (N.to_nat i) = Some x.
+Proof. intros A l i x. unfold nth_N. destruct (len_N l <=? i); [discriminate|auto]. Qed.
+
+Lemma nodes_ext_app : forall n x, nodes_ext n (n ++ [x]).
+Proof.
+  intros n x i nd H. exists nd. repeat split; auto.
+  apply nth_error_nth_N. apply nth_N_nth_error in H.
+  rewrite nth_error_app1; [exact H|]. apply nth_error_Some. congruence.
+Qed.
+
+Definition f_pres (f : node_data -> node_data) : Prop :=
+  forall nd, nd_parent (f nd) = nd_parent nd /\
+    (forall l, elem_local (nd_kind (f nd)) = Some l -> elem_local (nd_kind nd) = Some l).
+
+Lemma list_upd_nth : forall (A : Type) (f : A -> A) (l : list A) i l',
+  list_upd l i f = Some l' ->
+  forall j, nth_error l' j = if Nat.eqb j i then option_map f (nth_error l j) else nth_error l j.
+Proof.
+  intros A f l. induction l as [|x r IH]; intros i l' H j; [discriminate|].
+  destruct i as [|i]; cbn [list_upd] in H.
+  - inversion H; subst. destruct j; reflexivity.
+  - destruct (list_upd r i f) as [r'|] eqn:E; [|discriminate]. inversion H; subst.
+    destruct j as [|j]; [reflexivity|]. cbn [nth_error]. exact (IH i r' E j).
+Qed.
+
+Lemma upd_node_rinv : forall text n0 nodes i f, nodes_ext n0 nodes -> f_pres f ->
+  rinv text (nodes_ext n0) (upd_node nodes i f).
+Proof.
+  intros text n0 nodes i f H0 Hf. unfold upd_node.
+  destruct (list_upd nodes (N.to_nat i) f) as [l'|] eqn:E; [|apply rinv_panic].
+  apply rinv_ok. eapply nodes_ext_trans; [exact H0|].
+  intros j nd Hj. apply nth_N_nth_error in Hj.
+  pose proof (list_upd_nth _ f nodes _ l' E (N.to_nat j)) as Hn. rewrite Hj in Hn. cbn [option_map] in Hn.
+  destruct (Hf nd) as [Hp Hl].
+  destruct (Nat.eqb (N.to_nat j) (N.to_nat i)).
+  - exists (f nd). split; [apply nth_error_nth_N; exact Hn|]. auto.
+  - exists nd. split; [apply nth_error_nth_N; exact Hn|]. auto.
+Qed.
+
+#[export] Hint Extern 1 (f_pres _) =>
+  (intros ?nd; split; [reflexivity | cbn; intros; first [assumption | discriminate]]) : pay.
+#[export] Hint Resolve upd_node_rinv nodes_ext_refl : pay.
+
+Lemma set_next_subtree_all_rinv : forall text n0 ids nodes v, nodes_ext n0 nodes ->
+  rinv text (nodes_ext n0) (set_next_subtree_all nodes ids v).
+Proof.
+  intros text n0 ids. induction ids as [|i r IH]; intros nodes v H; cbn [set_next_subtree_all]; pay_tac.
+Qed.
+#[export] Hint Resolve set_next_subtree_all_rinv : pay.
+
+(* setters *)
+Lemma ctx_inv_tag : forall text c, ctx_inv text c -> qn_ok text (tn_prefix (c_tag_name c)) (tn_name (c_tag_name c)).
+Proof. intros text c [H _]. exact H. Qed.
+Lemma ctx_inv_set_ns_start_idx : forall text c v, ctx_inv text c -> ctx_inv text (set_ns_start_idx c v).
+Proof. intros text c v H. exact H. Qed.
+Lemma ctx_inv_set_cur_attrs : forall text c v, ctx_inv text c -> ctx_inv text (set_cur_attrs c v).
+Proof. intros text c v H. exact H. Qed.
+Lemma ctx_inv_set_awaiting : forall text c v, ctx_inv text c -> ctx_inv text (set_awaiting c v).
+Proof. intros text c v H. exact H. Qed.
+Lemma ctx_inv_set_entities : forall text c v, ctx_inv text c -> ctx_inv text (set_entities c v).
+Proof. intros text c v H. exact H. Qed.
+Lemma ctx_inv_set_after_text : forall text c v, ctx_inv text c -> ctx_inv text (set_after_text c v).
+Proof. intros text c v H. exact H. Qed.
+Lemma ctx_inv_set_entity_floor : forall text c v, ctx_inv text c -> ctx_inv text (set_entity_floor c v).
+Proof. intros text c v H. exact H. Qed.
+Lemma ctx_inv_set_ld : forall text c v, ctx_inv text c -> ctx_inv text (set_ld c v).
+Proof. intros text c v H. exact H. Qed.
+Lemma ctx_inv_set_tag_name : forall text c tn, qn_ok text (tn_prefix tn) (tn_name tn) -> ctx_inv text c ->
+  ctx_inv text (set_tag_name c tn).
+Proof. intros text c tn Hq [_ H]. split; [exact Hq|exact H]. Qed.
+Lemma ctx_inv_set_doc : forall text c d, ctx_inv text c -> d_nodes d = d_nodes (c_doc c) ->
+  ctx_inv text (set_doc c d).
+Proof. intros text c d [Hq H] E. split; [exact Hq|]. cbn [set_doc c_doc c_parent_id c_parent_prefixes]. rewrite E. exact H. Qed.
+Lemma ctx_inv_set_nodes : forall text c d nodes, ctx_inv text c -> nodes_ext (d_nodes (c_doc c)) nodes ->
+  ctx_inv text (set_doc c (set_nodes d nodes)).
+Proof.
+  intros text c d nodes [Hq H] E. split; [exact Hq|].
+  cbn [set_doc set_nodes c_doc c_parent_id c_parent_prefixes d_nodes]. eapply chain_ext; eauto.
+Qed.
+Lemma qn_ok_null : forall text, qn_ok text (tn_prefix tag_name_null) (tn_name tag_name_null).
+Proof.
+  intros. apply qn_ok_empty_prefix. cbn [tag_name_null tn_prefix]. unfold slice_bytes, empty_slice, sub.
+  cbn [sl_start sl_end]. reflexivity.
+Qed.
+#[export] Hint Resolve ctx_inv_tag ctx_inv_set_ns_start_idx ctx_inv_set_cur_attrs ctx_inv_set_awaiting
+  ctx_inv_set_entities ctx_inv_set_after_text ctx_inv_set_entity_floor ctx_inv_set_ld
+  ctx_inv_set_tag_name ctx_inv_set_doc ctx_inv_set_nodes qn_ok_null : pay.
+
+#[export] Hint Extern 2 (d_nodes _ = _) => congruence : pay.
+
+Notation TT := (fun _ => True).
+
+Lemma short_range_rinv : forall text a e, rinv text TT (short_range a e).
+Proof. intros. unfold short_range. pay_tac. Qed.
+Lemma ns_range_checked_rinv : forall text a e, rinv text TT (ns_range_checked a e).
+Proof. intros. unfold ns_range_checked. pay_tac. Qed.
+Lemma inc_depth_rinv : forall text s ld, rinv text TT (inc_depth text s ld).
+Proof. intros. unfold inc_depth. pay_tac. Qed.
+Lemma inc_references_rinv : forall text s ld, rinv text TT (inc_references text s ld).
+Proof. intros. unfold inc_references. pay_tac. Qed.
+Lemma tb_finish_rinv : forall text t, rinv text TT (tb_finish t).
+Proof. intros. unfold tb_finish. pay_tac. Qed.
+Lemma ns_prefix_at_rinv : forall text d i, rinv text TT (ns_prefix_at text d i).
+Proof. intros. unfold ns_prefix_at. pay_tac. Qed.
+#[export] Hint Resolve short_range_rinv ns_range_checked_rinv inc_depth_rinv inc_references_rinv
+  tb_finish_rinv ns_prefix_at_rinv : pay.
+
+Lemma push_ns_rinv : forall text name uri d,
+  rinv text (fun d' => d_nodes d' = d_nodes d) (push_ns text name uri d).
+Proof. intros. unfold push_ns. pay_tac. Qed.
+Lemma push_ref_rinv : forall text i d, rinv text (fun d' => d_nodes d' = d_nodes d) (push_ref i d).
+Proof. intros. unfold push_ref. pay_tac. Qed.
+#[export] Hint Resolve push_ns_rinv push_ref_rinv : pay.
+
+Lemma any_prefix_rinv : forall text d l p, rinv text TT (any_prefix text d l p).
+Proof. intros text d l. induction l as [|i r IH]; intros p; cbn [any_prefix]; pay_tac. Qed.
+#[export] Hint Resolve any_prefix_rinv : pay.
+Lemma ns_exists_rinv : forall text d st p, rinv text TT (ns_exists text d st p).
+Proof. intros. unfold ns_exists. pay_tac. Qed.
+#[export] Hint Resolve ns_exists_rinv : pay.
+Lemma find_prefix_idx_rinv : forall text d l p, rinv text TT (find_prefix_idx text d l p).
+Proof. intros text d l. induction l as [|i r IH]; intros p; cbn [find_prefix_idx]; pay_tac. Qed.
+Lemma ns_range_slice_rinv : forall text d nss, rinv text TT (ns_range_slice d nss).
+Proof. intros. unfold ns_range_slice. pay_tac. Qed.
+#[export] Hint Resolve find_prefix_idx_rinv ns_range_slice_rinv : pay.
+
+Lemma get_ns_idx_by_prefix_rinv : forall text nss pp p d, rinv text TT (get_ns_idx_by_prefix text nss pp p d).
+Proof. intros. unfold get_ns_idx_by_prefix. pay_tac. Qed.
+#[export] Hint Resolve get_ns_idx_by_prefix_rinv : pay.
+
+Lemma resolve_ns_loop_rinv : forall text st l d,
+  rinv text (fun d' => d_nodes d' = d_nodes d) (resolve_ns_loop text st l d).
+Proof. intros text st l. induction l as [|i r IH]; intros d; cbn [resolve_ns_loop]; pay_tac. Qed.
+#[export] Hint Resolve resolve_ns_loop_rinv : pay.
+
+Lemma nth_N_app_last : forall (A : Type) (l : list A) x, nth_N (l ++ [x]) (len_N l) = Some x.
+Proof.
+  intros A l x. apply nth_error_nth_N. unfold len_N. rewrite Nat2N.id.
+  rewrite nth_error_app2 by lia. rewrite Nat.sub_diag. reflexivity.
+Qed.
+
+(* what append_node leaves: the invariant, the same frame, and the new node *)
+Definition appended (text : bytes) (kind : node_kind) (c : context) (x : N * context) : Prop :=
+  ctx_inv text (snd x) /\ c_parent_prefixes (snd x) = c_parent_prefixes c /\
+  c_parent_id (snd x) = c_parent_id c /\ c_tag_name (snd x) = c_tag_name c /\
+  exists nd', nth_N (d_nodes (c_doc (snd x))) (fst x) = Some nd' /\ nd_parent nd' = Some (c_parent_id c) /\
+    (forall l, elem_local (nd_kind nd') = Some l -> elem_local kind = Some l).
+
+Lemma append_node_rinv : forall text kind r c, ctx_inv text c ->
+  rinv text (appended text kind c) (append_node kind r c).
+Proof.
+  intros text kind r c Hc. unfold append_node. cbv zeta.
+  destruct (nodes_limit (c_opt c) <=? len_N (d_nodes (c_doc c))); [apply rinv_err; exact I|].
+  unfold node_id_new. destruct (u32_max <=? len_N (d_nodes (c_doc c))); [apply rinv_panic|].
+  rewrite bind_Ok_l.
+  set (newnode := {| nd_parent := Some (c_parent_id c); nd_prev_sibling := None; nd_next_subtree := None;
+                     nd_last_child := None; nd_kind := kind; nd_range := r |}).
+  set (nodes0 := d_nodes (c_doc c) ++ [newnode]).
+  destruct (nth_N nodes0 (c_parent_id c)) as [pnd|]; [rewrite bind_Ok_l|apply rinv_panic].
+  eapply rinv_bind; [apply (upd_node_rinv text nodes0); [apply nodes_ext_refl|auto with pay]|].
+  intros nodes1 H1. cbv beta.
+  eapply rinv_bind; [apply (upd_node_rinv text nodes0); [exact H1|auto with pay]|].
+  intros nodes2 H2. cbv beta.
+  eapply rinv_bind; [apply (set_next_subtree_all_rinv text nodes0); exact H2|].
+  intros nodes3 H3. cbv beta. apply rinv_ok. unfold appended. cbn [fst snd].
+  split; [|split; [reflexivity|split; [reflexivity|split; [reflexivity|]]]].
+  - apply ctx_inv_set_awaiting. apply ctx_inv_set_nodes; [exact Hc|].
+    eapply nodes_ext_trans; [apply nodes_ext_app|exact H3].
+  - destruct (H3 _ _ (nth_N_app_last _ (d_nodes (c_doc c)) newnode)) as (nd' & Hn & Hp & Hl).
+    exists nd'. split; [exact Hn|]. split; [exact Hp|exact Hl].
+Qed.
+
+Lemma append_node_rinv_inv : forall text kind r c, ctx_inv text c ->
+  rinv text (fun x => ctx_inv text (snd x)) (append_node kind r c).
+Proof.
+  intros. eapply rinv_weaken; [apply append_node_rinv; assumption|]. intros a Ha. exact (proj1 Ha).
+Qed.
+#[export] Hint Resolve append_node_rinv_inv : pay.
+
+Lemma append_text_rinv : forall text t r c, ctx_inv text c -> rinv text (ctx_inv text) (append_text t r c).
+Proof. intros text t r c H. unfold append_text. pay_tac. Qed.
+Lemma merge_text_rinv : forall text c, ctx_inv text c -> rinv text (ctx_inv text) (merge_text text c).
+Proof. intros text c H. unfold merge_text. pay_tac. Qed.
+#[export] Hint Resolve append_text_rinv merge_text_rinv : pay.
+Lemma reset_after_text_rinv : forall text c, ctx_inv text c -> rinv text (ctx_inv text) (reset_after_text text c).
+Proof. intros text c H. unfold reset_after_text. pay_tac. Qed.
+#[export] Hint Resolve reset_after_text_rinv : pay.
+
+Lemma resolve_namespaces_rinv : forall text c, ctx_inv text c ->
+  rinv text (fun x => ctx_inv text (snd x)) (resolve_namespaces text c).
+Proof. intros text c H. unfold resolve_namespaces. pay_tac. Qed.
+#[export] Hint Resolve resolve_namespaces_rinv : pay.
+
+Lemma attr_expanded_name_rinv : forall text d i l, rinv text TT (attr_expanded_name text d i l).
+Proof. intros. unfold attr_expanded_name. pay_tac. Qed.
+#[export] Hint Resolve attr_expanded_name_rinv : pay.
+Lemma any_same_name_rinv : forall text d l n, rinv text TT (any_same_name text d l n).
+Proof. intros text d l. induction l as [|a r IH]; intros n; cbn [any_same_name]; pay_tac. Qed.
+#[export] Hint Resolve any_same_name_rinv : pay.
+Lemma resolve_attrs_loop_rinv : forall text nss st l d,
+  rinv text (fun d' => d_nodes d' = d_nodes d) (resolve_attrs_loop text nss st l d).
+Proof. intros text nss st l. induction l as [|a r IH]; intros d; cbn [resolve_attrs_loop]; pay_tac. Qed.
+#[export] Hint Resolve resolve_attrs_loop_rinv : pay.
+Lemma resolve_attributes_rinv : forall text nss c, ctx_inv text c ->
+  rinv text (fun x => ctx_inv text (snd x)) (resolve_attributes text nss c).
+Proof. intros text nss c H. unfold resolve_attributes. pay_tac. Qed.
+#[export] Hint Resolve resolve_attributes_rinv : pay.
+
+Ltac fix_step := cbv beta match fix.
+
+Lemma norm_attr_lvl_rinv : forall text lvl es value t ld, rinv text TT (norm_attr_lvl text lvl es value t ld).
+Proof.
+  intros text lvl es. induction lvl as [|lvl IHl]; intros value t ld; cbn [norm_attr_lvl].
+  - pay_tac.
+  - eapply rinv_bind; [apply stream_from_substr_rinv|]. intros s0 Hs0. cbv beta.
+    match goal with |- context [?F (length (s_rest s0))] =>
+      assert (L : forall n s t ld, sinv text s -> rinv text TT (F n s t ld)) end.
+    { induction n as [|n IHn]; intros s t' ld' Hs; fix_step; pay_tac. }
+    pay_tac.
+Qed.
+#[export] Hint Resolve norm_attr_lvl_rinv : pay.
+
+Lemma normalize_attribute_rinv : forall text v c, ctx_inv text c ->
+  rinv text (fun x => ctx_inv text (snd x)) (normalize_attribute text v c).
+Proof. intros text v c H. unfold normalize_attribute. pay_tac. Qed.
+#[export] Hint Resolve normalize_attribute_rinv : pay.
+Lemma process_attribute_rinv : forall text r q el p l v c, ctx_inv text c ->
+  rinv text (ctx_inv text) (process_attribute text r q el p l v c).
+Proof. intros text r q el p l v c H. unfold process_attribute. pay_tac. Qed.
+Lemma process_cdata_rinv : forall text t r c, ctx_inv text c -> rinv text (ctx_inv text) (process_cdata text t r c).
+Proof. intros text t r c H. unfold process_cdata. pay_tac. Qed.
+Lemma parse_next_chunk_rinv : forall text s es, sinv text s ->
+  rinv text (fun x => sinv text (snd x)) (parse_next_chunk text s es).
+Proof. intros text s es H. unfold parse_next_chunk. pay_tac. Qed.
+#[export] Hint Resolve process_attribute_rinv process_cdata_rinv parse_next_chunk_rinv : pay.
